@@ -291,6 +291,7 @@ inductive Op
   | apiUpdatePassword (pid pw : Bytes)
   | setCookie (b : Bytes) (c : Option Cookie)
   | seedUser (u : User)          -- harness shortcut: start from a reachable account state
+  | setSess (b : Bytes) (j : Jar) -- harness shortcut: a browser holding this session
 deriving Repr
 
 /-- The request context a request of browser `b` starts with (`LoadClientState`). -/
@@ -331,6 +332,7 @@ def step (cfg : Config) (s : State) : Op → State × Option Outcome
      | none => s, none)
   | .setCookie b ck => (s.setBrowser b { s.browser b with rm := ck }, none)
   | .seedUser u => ({ s with store := s.store.upsert u }, none)
+  | .setSess b j => (s.setBrowser b { s.browser b with sess := j }, none)
 
 def run (cfg : Config) (s : State) (ops : List Op) : State := ops.foldl (fun s op => (step cfg s op).1) s
 
